@@ -68,7 +68,8 @@ def genTrack (es : List Event) : List Nat := genEvents 0 es ++ eotBytes
 
 /-! ### normalisation (`Track::split_note_off`, `Track::events_sort`) -/
 
-def noteOffOf (e : Event) : Event := { e with kind := .noteOff, time := e.time + e.v2 }
+/-- the note-off of a note: at start + gate, and never before the start (a negative gate counts as 0) -/
+def noteOffOf (e : Event) : Event := { e with kind := .noteOff, time := e.time + (if e.v2 < 0 then 0 else e.v2) }
 
 def splitNoteOff : List Event → List Event
   | [] => []
